@@ -6,6 +6,9 @@ CLAIMED = {
     'C05': dict(design='DESIGN.md §3 C05', technique='deterministic simulation: seeded operation histories on version chains with a steered simulated wall clock, reference-model oracle, ddmin-minimised replay',
                 text='Seeded search over histories of new_version/revoke/marking ops on objects and dicts of every versionable type of both spec versions, with the wall clock steered relative to the previous modified time (earlier, equal, sub-precision later, later; stalled, backward-jumping, coarse clocks). A clean batch is evidence, not proof.',
                 note='Trusts: own integer timestamp parser, hand-written catalog of valid objects, the library serializer as observation channel. Clock seam = STIXdatetime.now; ops that bypass it are counted and stay soundly judged.'),
+    'C11': dict(design='DESIGN.md §3 C11', technique='deterministic simulation with fault injection: seeded add/read histories against MemoryStore and FileSystemStore on a simulated disk (readdir order, EIO/ENOSPC/EACCES, short/torn writes, process crash + restart), list-model oracle, ddmin replay',
+                text='Seeded search over add histories in every documented input form, reads after every add, save/load and restarts, compared op by op with a plain-list model; a separate faulting batch injects I/O errors, torn writes and crashes inside adds and reads and checks that acknowledged versions are never lost, altered or answered wrongly.',
+                note='Trusts: tmpfs semantics, own timestamp parser and JSON normaliser; completed write()s survive a process crash (no power-loss model); acceptance policy of add() is not judged (a raising add is resolved by observation).'),
 }
 
 NA = {
